@@ -128,7 +128,7 @@ fn judge(rep: &Reporter, name: &str, params: &str, below: &[T], source: &[T], se
 }
 
 fn populations(rng: &mut SplitMix64, n_random: usize) -> Vec<Vec<T>> {
-    let grid = [-2.0, 0.0, 0.0, 1.0, 3.0, f64::INFINITY];
+    let grid = [-2.0, 0.0, 0.0, 1.0, 3.0, f64::INFINITY, 1.0 + f64::EPSILON, 1e-18, 3.0 - 4.0 * f64::EPSILON];
     let mut out: Vec<Vec<T>> = vec![vec![]];
     let mk_pop = |vals: &[f64]| -> Vec<T> { vals.iter().enumerate().map(|(i, v)| (i as u32 + 1, v.to_bits())).collect() };
     out.push(mk_pop(&[1.0]));
@@ -140,6 +140,13 @@ fn populations(rng: &mut SplitMix64, n_random: usize) -> Vec<Vec<T>> {
     out.push(mk_pop(&[-2.0, 0.0, 0.0, 1.0, 3.0]));
     out.push(mk_pop(&[5.0, 4.0, 3.0, 2.0, 1.0, 0.5, 0.25, 0.125]));
     out.push(mk_pop(&[0.0, f64::INFINITY, 1.0]));
+    // near ties: different values that a tolerant comparison would call equal (worse member stored first)
+    out.push(mk_pop(&[9e-18, 1e-18, 4e-18]));
+    out.push(mk_pop(&[1.9000000000000004, 1.9000000000000001, 1.0]));
+    out.push(mk_pop(&[3.0, 1.0 + f64::EPSILON, 1.0, 2.0]));
+    out.push(mk_pop(&[2e-300, 1e-300, 0.0]));
+    out.push(mk_pop(&[-1.0, -1.0 - f64::EPSILON, -1.0 + f64::EPSILON / 2.0]));
+    out.push(mk_pop(&[1e15, 1e15 + 0.125, 1e15 + 1.0]));
     for _ in 0..n_random {
         let len = rng.usize(9);
         let finite_only = rng.chance(0.7);
@@ -325,6 +332,47 @@ fn main() {
             }
         }
     }
+    // DE selections on populations in which individuals repeat: exact duplicates (same solution, same objective)
+    // and twins (same solution evaluated to different values, as a noisy objective produces them). The groups
+    // must still be complete: population size x (2y+1) members, all of them copies of source members, the
+    // first of each DECurrentToBest group the current individual, the best one second.
+    for k in 0..rep.tier.pick(1_500, 200_000) {
+        let y = 1 + (k % 2) as u32;
+        let group = (2 * y + 1) as usize;
+        let size = group + 1 + rng.usize(5);
+        let distinct = 1 + rng.usize(size);
+        let base: Vec<T> = (0..distinct).map(|i| (i as u32 + 1, ((rng.below(7) as f64) - 2.0).to_bits())).collect();
+        let src: Vec<T> = (0..size)
+            .map(|i| {
+                if i < distinct {
+                    base[i]
+                } else {
+                    let t = *rng.pick(&base);
+                    if rng.chance(0.5) { t } else { (t.0, ((rng.below(7) as f64) - 2.0).to_bits()) }
+                }
+            })
+            .collect();
+        let best = src.iter().map(val).fold(f64::INFINITY, f64::min);
+        let ops: [(&str, Box<dyn Component<TagP>>); 3] = [("DERand", sde::DERand::new(y).unwrap()), ("DEBest", sde::DEBest::new(y).unwrap()), ("DECurrentToBest", sde::DECurrentToBest::new(y).unwrap())];
+        for (name, comp) in ops {
+            rep.case();
+            rep.nontrivial(hash_of(&("de-repeats", name, k)));
+            let out = apply(comp.as_ref(), &below, &src, k as u64);
+            let name_r = format!("{name}:population-with-repeated-individuals");
+            let Some(sel) = judge(&rep, &name_r, &format!("y={y}"), &below, &src, k as u64, &out, &Expect::Count(size * group)) else { continue };
+            for (bi, block) in sel.chunks(group).enumerate() {
+                let bad = match name {
+                    "DEBest" => val(&block[0]) != best,
+                    "DECurrentToBest" => block[0] != src[bi] || val(&block[1]) != best,
+                    _ => false,
+                };
+                if bad {
+                    rep.violation(&format!("{name_r}:block-layout-wrong"), json!({"y": y, "block": bi, "block_members": block.iter().map(|x| (x.0, val(x))).collect::<Vec<_>>(), "source": src.iter().map(|t| (t.0, val(t))).collect::<Vec<_>>()}));
+                    break;
+                }
+            }
+        }
+    }
     // IWO on real-valued objectives and spreads that are not powers of two: the best individual gets
     // exactly max copies, the worst exactly min, everyone in between a number in [min, max], better never fewer
     for k in 0..rep.tier.pick(3_000, 1_000_000) {
@@ -360,7 +408,7 @@ fn main() {
     let margin = 2.0 * ((2.0f64 / 1e-10).ln() / (2.0 * n_draws as f64)).sqrt();
     rep.set("pressure_draws", json!(n_draws));
     rep.set("pressure_margin", json!(margin));
-    let pressure_pops: Vec<Vec<f64>> = vec![vec![5.0, 4.0, 3.0, 2.0, 1.0], vec![-2.0, 0.0, 1.0, 3.0], vec![1.0, 10.0, 100.0], vec![0.5, 0.25, 3.0, 2.0, 1.0, 7.0]];
+    let pressure_pops: Vec<Vec<f64>> = vec![vec![5.0, 4.0, 3.0, 2.0, 1.0], vec![-2.0, 0.0, 1.0, 3.0], vec![1.0, 10.0, 100.0], vec![0.5, 0.25, 3.0, 2.0, 1.0, 7.0], vec![1.9000000000000004, 1.9000000000000001, 3.0], vec![4e-18, 1e-18, 9e-18]];
     for (pi, vals) in pressure_pops.iter().enumerate() {
         let src: Vec<T> = vals.iter().enumerate().map(|(i, v)| (i as u32 + 1, v.to_bits())).collect();
         let ops: Vec<(&str, Box<dyn Component<TagP>>)> = vec![
